@@ -31,14 +31,14 @@ type Obligation struct {
 
 // Ctx is what rules write their results into.
 type Ctx struct {
-	Prog   *Program
-	Verif  string
-	Prop   string
-	Tier   string
-	Obs    []*Obligation
-	floors map[string]int
-	notes  []string
-	seen   map[string]int
+	Prog    *Program
+	Verif   string
+	Prop    string
+	Tier    string
+	Obs     []*Obligation
+	floors  map[string]int
+	notes   []string
+	seen    map[string]int
 	tmplAll *TmplAll
 	prefix  string // prepended to construct keys (thorough tier: checked-in instance being analysed)
 	lexW    *lexWriter
@@ -88,7 +88,9 @@ func (c *Ctx) floor(rule string, n int) {
 	c.floors[rule] = n
 }
 
-func (c *Ctx) note(format string, args ...any) { c.notes = append(c.notes, fmt.Sprintf(format, args...)) }
+func (c *Ctx) note(format string, args ...any) {
+	c.notes = append(c.notes, fmt.Sprintf(format, args...))
+}
 
 func (c *Ctx) count(rule string) int {
 	n := 0
